@@ -44,7 +44,7 @@ Definition kl (pre : list ains) (g : option label) : list aline :=
   map AInstr pre ++ match g with Some L => goto L | None => [] end.
 (* instructions that neither halt nor jump *)
 Definition simple (i : ains) : bool :=
-  match i with AJump _ | AHaltI | AHc _ _ _ => false | _ => true end.
+  match i with AJump _ | AHaltI | AHc _ _ _ | ALbs _ _ | AYield _ => false | _ => true end.
 
 Lemma last2_app2 {A} (x : list A) (a b : A) : last2 (x ++ [a; b]) = [a; b].
 Proof.
@@ -742,6 +742,8 @@ Definition symval (m : mem) (s : sym) : option Z :=
   | SLit z => Some (wrap z)
   | SReg r => if inb m (ra r) w then Some (lw m (ra r)) else None
   | SLab _ => None
+  | SChar c => Some (wrap c)
+  | SRegAddr r => Some (wrap (ra r))
   end.
 
 Lemma pushed_slot_ok top m : regs_ok m -> room_ok top m -> w <= FP m - top - lo ->
@@ -887,7 +889,8 @@ Qed.
 (* ---------- operands: pop_value ---------- *)
 Lemma symval_oval m s v : symval m s = Some v -> oval m (rs s) = Some v.
 Proof.
-  destruct s as [z|r|l]; cbn [symval res_sym]; [intros H; rewrite oval_imm; exact H | | discriminate].
+  destruct s as [z|r|l|c|r]; cbn [symval res_sym];
+    [intros H; rewrite oval_imm; exact H | | discriminate | intros H; rewrite oval_imm; exact H | intros H; rewrite oval_imm; exact H].
   unfold Idioms.oval, val; cbn [mm]. auto.
 Qed.
 Lemma lw_pop_other r b m a : 0 <= ra r -> 0 <= a -> (a + w <= ra r \/ ra r + w <= a) ->
@@ -935,7 +938,7 @@ Lemma symval_pop_other r b m s : regs_ok m -> r = R0 \/ r = R1 ->
   match s with SReg r' => (r' = R0 \/ r' = R1) /\ r' <> r | _ => True end ->
   symval (pop_mem r b m) s = symval m s.
 Proof.
-  intros L Hr Hs. destruct s as [z|r'|l]; cbn [symval]; try reflexivity.
+  intros L Hr Hs. destruct s as [z|r'|l|c|r']; cbn [symval]; try reflexivity.
   rewrite inb_pop. destruct Hs as [Hr' Ne].
   rewrite lw_pop_other; [reflexivity | | |].
   - destruct L, Hr; subst r; cbn [regaddr]; assumption.
@@ -943,7 +946,7 @@ Proof.
   - destruct L, Hr, Hr'; subst r r'; cbn [regaddr]; try congruence; lia.
 Qed.
 Lemma sym_of_bub_of rg top o keep : rg = R0 \/ rg = R1 ->
-  match sym_of rg (bub_of E top rg o keep) with SReg r' => r' = rg | SLit _ => True | SLab _ => False end.
+  match sym_of rg (bub_of E top rg o keep) with SReg r' => r' = rg | SLit _ => True | _ => False end.
 Proof. intros _. destruct o, keep; cbn; auto. Qed.
 
 (* ---------- operands: eval_opd ---------- *)
@@ -1040,7 +1043,7 @@ Proof.
   assert (S3' : symval m' (sym_of R1 by_) = Some (wval m y)).
   { rewrite Em, symval_pop_other; [rewrite S3, V2'; reflexivity | exact L3 | left; reflexivity |].
     pose proof (sym_of_bub_of R1 top1 y false (or_intror eq_refl)) as Q. fold by_ in Q.
-    destruct (sym_of R1 by_); [exact I | subst; split; [right; reflexivity | discriminate] | destruct Q]. }
+    destruct (sym_of R1 by_); [exact I | subst; split; [right; reflexivity | discriminate] | destruct Q | exact I | exact I]. }
   assert (Ag : agree (FP m - top) m m').
   { eapply agree_trans; [exact A1|]. eapply agree_trans; [apply (agree_mono (FP m1 - top1)); [rewrite F1; lia | exact A2]|].
     eapply agree_trans; [apply (agree_mono lo); [lia | exact A3]|]. rewrite Em. apply (agree_mono lo); [lia | exact A4]. }
@@ -2230,8 +2233,8 @@ Fixpoint store_offs (l : list aline) : list Z :=
 Lemma store_offs_app a b : store_offs (a ++ b) = store_offs a ++ store_offs b.
 Proof.
   induction a as [|x r IH]; [reflexivity|]. cbn [app store_offs].
-  destruct x as [l|[t| |c a0 b0|d b0 o|d b0 o|op d a0 b0|d v|b0 o v|b0 o v]]; try exact IH.
-  destruct b0 as [z|[]|l]; try exact IH; destruct o as [z|r0|l]; try exact IH. cbn [app]. now rewrite IH.
+  destruct x as [l|[t| |c a0 b0|d b0 o|d b0 o|op d a0 b0|d a0|v|d v|b0 o v|b0 o v]]; try exact IH.
+  destruct b0 as [z|[]|l|c|r']; try exact IH; destruct o as [z|r0|l|c|r']; try exact IH. cbn [app]. now rewrite IH.
 Qed.
 Lemma pop_value_stores r b : store_offs (fst (pop_value r b)) = [].
 Proof. destruct b; reflexivity. Qed.
